@@ -228,6 +228,10 @@ class _Gen:
                     kw[name] = 'R'
                 elif 'stdout' in self.faults and heavy and roll < 0.2:
                     kw[name] = 'D'
+                elif roll > 0.75:
+                    # one of two callback objects shared by every block of the run that picks it: blocks
+                    # whose settings repeat, or equal what is already active ("change nothing")
+                    kw[name] = rng.choice(['k0', 'k0', 'k1'])
                 else:
                     kw[name] = 'u'
             elif name == 'solver':
@@ -237,7 +241,9 @@ class _Gen:
                         pal += ['cg1', 'cg1']
                     kw[name] = rng.choice(pal)
                 else:
-                    kw[name] = 'u'
+                    # light runs never apply, so palette solvers (repeatable values; cg500 equals the
+                    # default) cost nothing there
+                    kw[name] = 'u' if rng.random() < 0.6 else rng.choice(['cg40', 'cg500', 'cg500', 'cg1'])
             elif name == 'throw':
                 allow_true = bool(self.faults and 'solver_fail' in self.faults) or self.sw['no_cg1']
                 kw[name] = (rng.random() < 0.5) if allow_true else False
